@@ -903,7 +903,7 @@ class C11(PairProp):
     theorems = ["C11_include_is_walk", "C11_paste_is_sequencing", "C11_examples"]
     partial = ["the two theorems give include = walking the file's blocks in place, up to the current-file name, the include stack and the current-block flag; that rendering does not read these (only diagnostics and the cycle check do) is tied by S-pairs, not proved",
                "C11_lib (a file found through FRUNDISLIB behaves like one in the current directory) is the hypothesis search_inc_file = (path, true), whatever path is; tied by S-pairs with library directories"]
-    describe_pairs = "document vs the same document with a run of blocks moved into an included file"
+    describe_pairs = "document vs the same document with a run of blocks moved into an included file; documents in which one run occurs two or three times vs one file included at each place"
     DOCS = [[".Ch A", "text one", ".Bm", "two", ".Em", ".Sh B", "three"], [".#dv v x", ".#de m", "\\*[v] \\$1", ".#.", ".m a", ".Bl", ".It i", ".El", "end \\*[v]"],
             [".Bd", "a", ".Ed", ".Bl -t enum", ".It x", ".It y", ".El", ".Tc"], ["p1", ".P", "p2", ".#if 1", "c", ".#;", ".Sm w", "tail"], [".Pt P", ".Ch C", ".Sh -id s S", ".Sx s", ".Tc -mini"]]
 
@@ -931,7 +931,29 @@ class C11(PairProp):
                         if j - k >= 2:
                             inner = e2e.doc_of(d[k:k + 1] + [".If deep.frundis"])
                             ps.append((whole, None, split, [("part.frundis", outer), ("lib2/inner.frundis", inner), ("deep.frundis", e2e.doc_of(d[k + 1:j]))], None, ["lib1", "lib2"]))
+        # the same run of blocks at several places, moved into ONE file included at each (the parsed-file cache; what
+        # pass 1 records per occurrence: tables, titles, headers, figures, poems, variables), directly, through the
+        # library path, and from inside another included file
+        for x in self.RUNS:
+            for sep in ([".Ch Two"], ["mid", ".P"], []):
+                for times in (2, 3):
+                    for tail in ([], [".Tc"], [".Tc -lot", ".Tc -lof", ".Tc -lop"]):
+                        if tier == Q and times == 3 and tail:
+                            continue
+                        body, sbody = [], []
+                        for k in range(times):
+                            body += (sep if k else []) + x
+                            sbody += (sep if k else []) + [".If part.frundis"]
+                        whole = e2e.doc_of([".Ch One"] + body + tail)
+                        split = e2e.doc_of([".Ch One"] + sbody + tail)
+                        inc = e2e.doc_of(x)
+                        ps.append((whole, None, split, [("part.frundis", inc)]))
+                        ps.append((whole, None, split, [("lib2/part.frundis", inc)], None, ["lib1", "lib2"]))
+                        ps.append((whole, None, e2e.doc_of([".Ch One", ".If outer.frundis"] + tail), [("outer.frundis", e2e.doc_of(sbody)), ("lib1/part.frundis", inc)], None, ["lib1"]))
         return ps
+
+    RUNS = [[".Bl -t table -columns 2 Marks", ".It a", ".Ta b", ".It c", ".Ta 5", ".El"], [".Sh S", "text"], [".Im i.png cap"], [".Bl -t verse Poem", ".It l", ".El"],
+            ["plain", ".Sm w"], [".#dv n \\*[n]x", "\\*[n]"], [".Bl -t table", ".It a", ".Ta b", ".Ta c", ".El", ".Bl -t table T2", ".It z", ".El"], [".Sh -id k S", ".Sx k"]]
 
     def compare_pair(self, ca, cb, a, b):
         if a[0] != "ok" or b[0] != "ok":
